@@ -18,6 +18,7 @@ import (
 	"strings"
 	"sync"
 	"sync/atomic"
+	"syscall"
 	"time"
 
 	"verifharness/vlib/render"
@@ -252,9 +253,24 @@ func runDoc(d *Doc, timeout time.Duration) Outcome {
 		renderDoc(d, &o)
 	}()
 	var o Outcome
-	select {
-	case o = <-done:
-	case <-time.After(timeout):
+	// the watchdog counts the CPU time of the process (the machine may be loaded by
+	// other checks: wall-clock alone would turn slow documents into hangs), with
+	// a wall-clock cap of 6x for a render that sleeps or dead-locks
+	cpu0 := cpuTime()
+	tick := time.NewTicker(50 * time.Millisecond)
+	defer tick.Stop()
+	fired := false
+	for !fired {
+		select {
+		case o = <-done:
+			goto finished
+		case <-tick.C:
+			if cpuTime()-cpu0 >= timeout || time.Since(t0) >= 6*timeout {
+				fired = true
+			}
+		}
+	}
+	{
 		buf := make([]byte, 1<<22)
 		n := runtime.Stack(buf, true)
 		o = Outcome{Status: "hang", Exit: true}
@@ -276,6 +292,7 @@ func runDoc(d *Doc, timeout time.Duration) Outcome {
 			o.Frames = append(o.Frames[:8:8], o.Frames[len(o.Frames)-4:]...)
 		}
 	}
+finished:
 	o.Rounds = int(atomic.LoadInt32(&cw.rounds)) + 1
 	o.Ms = int(time.Since(t0) / time.Millisecond)
 	// @font-face rules register fonts in the configuration: do not reuse it
@@ -288,6 +305,15 @@ func runDoc(d *Doc, timeout time.Duration) Outcome {
 // hangSite names a hang by the innermost function of /repo on the stack that
 // belongs to the layout / document / tree / text packages (function name, no
 // line: the sampled line inside a loop is arbitrary).
+// cpuTime = user + system CPU time consumed by this process
+func cpuTime() time.Duration {
+	var ru syscall.Rusage
+	if err := syscall.Getrusage(syscall.RUSAGE_SELF, &ru); err != nil {
+		return 0
+	}
+	return time.Duration(ru.Utime.Nano() + ru.Stime.Nano())
+}
+
 func hangSite(frames []string) string {
 	// innermost landmark function (the sampled innermost frame itself is arbitrary)
 	for _, f := range frames {
